@@ -13,6 +13,7 @@ placement of close_notify / warning / fatal alerts relative to data.
 import errno
 import socket
 
+import copy
 from .. import world as W
 from .. import scen as S
 from .. import progs
@@ -36,7 +37,12 @@ OPTS = [{"closeSocket": True, "ignoreAbruptClose": False},
          "multi_record": True},
         # the client updates its keys between its two messages (TLS 1.3)
         {"closeSocket": True, "ignoreAbruptClose": False,
-         "keyupdate": True}]
+         "keyupdate": True},
+        # the client sends a heartbeat request between its two messages
+        {"closeSocket": True, "ignoreAbruptClose": False,
+         "heartbeat": True},
+        # the server asks for post-handshake authentication before its answer
+        {"closeSocket": True, "ignoreAbruptClose": False, "pha": True}]
 
 
 def allowed(point, alt):
@@ -58,10 +64,18 @@ def scenarios(tier):
     return fl
 
 
+def _hb_ignore(payload):
+    return None
+
+
 def make_run(arg):
     idx, tier, seed, oi = arg
     sc = scenarios(tier)[idx]
     opts = OPTS[oi]
+    if opts.get("heartbeat"):
+        sc = copy.copy(sc)
+        sc.cset = dict(sc.cset)
+        sc.cset["heartbeat_response_callback"] = _hb_ignore
 
     def run_fn(choices):
         points, obs = progs.run_session(sc, seed, choices,
@@ -527,6 +541,11 @@ def run(res, tier, seed):
             if tier == "quick" and oi in (1, 3) and idx % 3:
                 continue
             if opts.get("keyupdate") and sc.version < (3, 4):
+                continue
+            if opts.get("heartbeat") and sc.version < (3, 1):
+                continue        # no extensions in SSLv3
+            if opts.get("pha") and (sc.version < (3, 4) or
+                                    not sc.client_cred):
                 continue
             points, base, results = explore.explore_parallel(
                 make_run, (idx, tier, seed, oi), 1, allowed)
